@@ -3,6 +3,7 @@ package main
 import (
 	"fmt"
 	"go/ast"
+	"go/token"
 	"sort"
 	"strings"
 )
@@ -14,19 +15,20 @@ import (
 // of an ERC20Call value, evm.Call) and logs (L).  Emitted next to the method table as `runFacts` (keyed by ABI name).
 
 type c09RunFacts struct {
-	Contract, AbiName string
-	RunSeq            []string // top-level statements of Run in source order
-	OuterWritesBefore int      // keeper calls that are not reads, on an outer ctx (stateDB.Context()), before the native action
-	OuterWritesAfter  int      // … after it (or anywhere, when there is no native action)
-	OuterReads        int
-	NativeStmts       int        // statements containing ExecuteNativeAction
-	Recovers          int        // recover() calls anywhere in Run (deferred function literals included)
-	Defers            int        // defer statements in Run
-	CtxRebinds        []string   // With*/… methods through which a ctx is re-bound or re-wrapped in Run
-	UseGas            int        // contract.UseGas / gas meter consumption on the contract in Run
-	Panics            int        // explicit panic(...) in Run
-	Paths             [][]string // event paths through the closure (helpers expanded, branches split, loops unrolled twice)
-	PathsTruncated    bool
+	Contract, AbiName  string
+	RunSeq             []string // top-level statements of Run in source order
+	OuterWritesBefore  int      // keeper calls that are not reads, on an outer ctx (stateDB.Context()), before the native action
+	OuterWritesAfter   int      // … after it (or anywhere, when there is no native action)
+	OuterReads         int
+	NativeStmts        int        // statements containing ExecuteNativeAction
+	ActionErrorDropped int        // the error ExecuteNativeAction returns is discarded, or reassigned / shadowed before it is tested or returned
+	Recovers           int        // recover() calls anywhere in Run (deferred function literals included)
+	Defers             int        // defer statements in Run
+	CtxRebinds         []string   // With*/… methods through which a ctx is re-bound or re-wrapped in Run
+	UseGas             int        // contract.UseGas / gas meter consumption on the contract in Run
+	Panics             int        // explicit panic(...) in Run
+	Paths              [][]string // event paths through the closure (helpers expanded, branches split, loops unrolled twice)
+	PathsTruncated     bool
 }
 
 const c09MaxPaths = 6000
@@ -489,6 +491,106 @@ func (c *ctxT) c09Run(contract, abiName string, run *ast.FuncDecl, decls []*ast.
 		}
 		return true
 	})
+	// def-use of the error of ExecuteNativeAction over the top-level statements of Run
+	isNativeCall := func(e ast.Expr) bool {
+		ce, ok := e.(*ast.CallExpr)
+		return ok && calleeName(ce) == "ExecuteNativeAction"
+	}
+	mentions := func(n ast.Node, name string) bool {
+		found := false
+		ast.Inspect(n, func(x ast.Node) bool {
+			if id, ok := x.(*ast.Ident); ok && id.Name == name {
+				found = true
+			}
+			return !found
+		})
+		return found
+	}
+	assigns := func(st ast.Stmt, name string) bool {
+		as, ok := st.(*ast.AssignStmt)
+		if !ok {
+			return false
+		}
+		for _, l := range as.Lhs {
+			if id, ok := l.(*ast.Ident); ok && id.Name == name {
+				return true
+			}
+		}
+		return false
+	}
+	testsNotNil := func(e ast.Expr, name string) bool {
+		ok := false
+		ast.Inspect(e, func(x ast.Node) bool {
+			if be, isB := x.(*ast.BinaryExpr); isB && be.Op == token.NEQ && isNilIdent(be.Y) {
+				if id, isI := be.X.(*ast.Ident); isI && id.Name == name {
+					ok = true
+				}
+			}
+			return !ok
+		})
+		return ok
+	}
+	for i, st := range run.Body.List {
+		if !hasCall(st, "ExecuteNativeAction") {
+			continue
+		}
+		switch v := st.(type) {
+		case *ast.IfStmt:
+			as, isAs := v.Init.(*ast.AssignStmt)
+			if isAs && len(as.Lhs) == 1 && len(as.Rhs) == 1 && isNativeCall(as.Rhs[0]) {
+				id, _ := as.Lhs[0].(*ast.Ident)
+				if id == nil || id.Name == "_" || !testsNotNil(v.Cond, id.Name) {
+					rf.ActionErrorDropped++
+				}
+			} else {
+				rf.ActionErrorDropped++ // a shape this analysis does not know
+			}
+		case *ast.ReturnStmt:
+			// return …, stateDB.ExecuteNativeAction(…): handed on as it is
+		case *ast.AssignStmt:
+			if len(v.Lhs) != 1 || len(v.Rhs) != 1 || !isNativeCall(v.Rhs[0]) {
+				rf.ActionErrorDropped++
+				break
+			}
+			id, _ := v.Lhs[0].(*ast.Ident)
+			if id == nil || id.Name == "_" {
+				rf.ActionErrorDropped++
+				break
+			}
+			used := false
+			for _, nx := range run.Body.List[i+1:] {
+				if is, ok := nx.(*ast.IfStmt); ok {
+					if is.Init != nil && assigns(is.Init, id.Name) {
+						break // reassigned in the init of the next if
+					}
+					if testsNotNil(is.Cond, id.Name) {
+						used = true
+						break
+					}
+				}
+				if rs, ok := nx.(*ast.ReturnStmt); ok {
+					for _, r := range rs.Results {
+						if rid, ok := r.(*ast.Ident); ok && rid.Name == id.Name {
+							used = true
+						}
+					}
+					break
+				}
+				if assigns(nx, id.Name) {
+					break // overwritten or shadowed before any test
+				}
+				if mentions(nx, id.Name) {
+					used = true // handed to something else (wrapped, logged, returned inside) — not lost silently
+					break
+				}
+			}
+			if !used {
+				rf.ActionErrorDropped++
+			}
+		default:
+			rf.ActionErrorDropped++ // result discarded (expression statement) or unknown shape
+		}
+	}
 	seenNative := false
 	for _, x := range rf.RunSeq {
 		switch {
@@ -568,6 +670,7 @@ structure RunFacts where
   outerWritesAfter : Nat
   outerReads : Nat
   nativeStmts : Nat
+  actionErrorDropped : Nat
   recovers : Nat
   defers : Nat
   ctxRebinds : List String
@@ -588,8 +691,8 @@ def runFacts : List RunFacts := [
 			}
 			ps = append(ps, "\n      -- "+strings.Join(p, " ")+"\n      "+leanList(ks))
 		}
-		fmt.Fprintf(&sb, "  { contract := %s, abiName := %s, runSeq := %s,\n    outerWritesBefore := %d, outerWritesAfter := %d, outerReads := %d, nativeStmts := %d, recovers := %d, defers := %d, ctxRebinds := %s, useGas := %d, panics := %d,\n    paths := %s, pathsTruncated := %s }",
-			leanStr(r.Contract), leanStr(r.AbiName), leanStrs(r.RunSeq), r.OuterWritesBefore, r.OuterWritesAfter, r.OuterReads, r.NativeStmts, r.Recovers, r.Defers, leanStrs(r.CtxRebinds), r.UseGas, r.Panics,
+		fmt.Fprintf(&sb, "  { contract := %s, abiName := %s, runSeq := %s,\n    outerWritesBefore := %d, outerWritesAfter := %d, outerReads := %d, nativeStmts := %d, actionErrorDropped := %d, recovers := %d, defers := %d, ctxRebinds := %s, useGas := %d, panics := %d,\n    paths := %s, pathsTruncated := %s }",
+			leanStr(r.Contract), leanStr(r.AbiName), leanStrs(r.RunSeq), r.OuterWritesBefore, r.OuterWritesAfter, r.OuterReads, r.NativeStmts, r.ActionErrorDropped, r.Recovers, r.Defers, leanStrs(r.CtxRebinds), r.UseGas, r.Panics,
 			leanList(ps), leanBool(r.PathsTruncated))
 		if i+1 < len(rfs) {
 			sb.WriteString(",")
